@@ -105,6 +105,11 @@ theorem request_roundtrip (method target host : Bytes) (port : Nat) (hs : Dic) (
   unfold header norm
   rw [this]; rfl
 
+/-- header names are looked up without regard to case (RFC 7230 §3.2): the handler finds a header under any spelling -/
+theorem header_lookup_case_insensitive (H : Dic) (n n' : Bytes) (h : lowerAscii n = lowerAscii n') : header H n = header H n' := by
+  unfold header
+  rw [← capitalized_lower n, ← capitalized_lower n', h]
+
 /-! ## responses: what the handler produced is what `Http::request` returns -/
 
 /-- the response as the client must see it: same status code, same protocol, same body bytes, every header the
